@@ -262,7 +262,11 @@ func (x *Exec) applyContract(c *Contract, fn *ssa.Function, sig *types.Signature
 				continue
 			}
 			if strings.TrimSpace(part) == "anything" {
+				kept := x.keptEntries(c)
 				x.havocAll()
+				for k, v := range kept {
+					x.st.heap[k] = v
+				}
 				continue
 			}
 			x.havocLvalue(env, parseExpr(part, cl.Where))
@@ -448,6 +452,41 @@ func (x *Exec) lvalueLocs(env *SpecEnv, e ast.Expr) []lvLoc {
 	p := x.evalAddr(env, e)
 	for _, lf := range leavesOf(pointeeType(p)) {
 		out = append(out, lvLoc{loc: x.locOf(p, lf), leafSort: lf.sort})
+	}
+	return out
+}
+
+// keptEntries: `keeps T1, T2` next to `modifies anything`: every field of every object of the listed struct types keeps
+// its value (the heap entries of those types survive the havoc). Returns the current incarnations by heap key.
+func (x *Exec) keptEntries(c *Contract) map[string]*Term {
+	out := map[string]*Term{}
+	for _, key := range x.keptKeys(c) {
+		out[key.key] = x.heapArr(x.st, key)
+	}
+	return out
+}
+
+func (x *Exec) keptKeys(c *Contract) []loc {
+	var out []loc
+	for _, cl := range c.clauses("keeps") {
+		for _, part := range splitTop(cl.Text, ',') {
+			part = strings.TrimSpace(part)
+			if part == "" {
+				continue
+			}
+			t := x.resolveType(c.Pkg, parseExpr(part, cl.Where))
+			if t == nil {
+				specErr("keeps %s: cannot resolve the type", part)
+			}
+			if _, ok := under(t).(*types.Struct); !ok {
+				specErr("keeps %s: not a struct type", part)
+			}
+			for _, lf := range leavesOf(t) {
+				l := x.locOf(&PtrV{T: types.NewPointer(t), Kind: PObj, Base: tZero, Root: t}, lf)
+				l.idx = nil
+				out = append(out, l)
+			}
+		}
 	}
 	return out
 }
